@@ -141,6 +141,35 @@ def check(prop: str, tier: str, seed: int) -> int:
                 if bad:
                     break
         run.coverage["edit_outputs_checked"] = n_edit
+    if prop == "C18":
+        # the text an edited document rebuilds to is rebuilt text as well (reading adopted in DESIGN.md appendix E)
+        from . import edit
+        hists = [h for h in edit.model_histories(tier, seed, run) if len(h["steps"]) == 1 and h["steps"][0]["res"] == "ok"
+                 and not h["steps"][0]["op"].get("bad")]
+        ecases, _ = edit.make_cases(hists, tier, seed)
+        edit.execute(ecases)
+        outs, seen_out = [], set()
+        for c in ecases:
+            st = (c["r"].get("steps") or [{}])[0]
+            t = st.get("ret")
+            if st.get("res") == "ok" and isinstance(t, str) and t not in seen_out and not layout.has_error_mod_tc(t):
+                seen_out.add(t)
+                outs.append({"id": len(outs) + 1, "text": t, "case": c})
+        nverd = layout.judge_norm([{"id": o["id"], "text": o["text"]} for o in outs], run)
+        for o in outs:
+            v = nverd.get(o["id"])
+            if v is None:
+                raise tlc.TLCFailure(f"no verdict for edit output {o['id']}")
+            c = o["case"]
+            run.case("edit-output:" + o["text"], nontrivial=True)
+            tag = f"|edit:{c['ops'][0]['f']}" + ("|loose_layout" if c.get("loose") else "") + \
+                ("|value_with_comment" if c["ops"][0].get("vform", "") in ("eol_comment", "lead_block", "lead_line", "trail_block") else "")
+            det = {"input": c["text"], "ops": [f"{x['f']} {x['npath']} {x['vtext']}" for x in c["ops"]], "output": o["text"]}
+            if v.get("c18") is False:
+                run.violation(symptoms.c18_key(o["text"], v["c18_at"], v.get("c18_clauses", [])) + tag, "C18_Normal", dict(det, clauses=v.get("c18_clauses")))
+            elif v.get("c18_indent") is False:
+                run.violation(symptoms.indent_key(o["text"], v.get("c18_line", {})) + tag, "C18_Indent", dict(det, line=v.get("c18_line")))
+        run.coverage["edit_outputs_checked"] = len(outs)
     for c in cases[:: max(1, len(cases) // 5)][:5]:
         run.sample({"case": c["key"], "input": c["text"], "output": c["r"].get("out"), "raised": c["r"].get("fail")})
     run.assumptions += [
